@@ -103,7 +103,7 @@ def run(ctx):
         for rep in range(2 if not thorough else 8):
             check('tLweSymEncryptZero sweep alpha=2^-40*%d' % a1, 5, [1, N] + tk1, sd + 1000 + rep + a1 % 1013, rep, a1, 0, lambda i: i >= N, 2)
     # --- key-switching keys: every row bit-exact (incl. the recentring in binary64), rows h = 0 trivial
-    for (n, nout, t, b) in ([(3, 4, 2, 2), (8, 9, 8, 2), (5, 3, 3, 3), (16, 7, 1, 1), (33, 17, 2, 4)] if not thorough else [(3, 4, 2, 2), (8, 9, 8, 2), (5, 3, 3, 3), (16, 7, 1, 1), (33, 17, 2, 4), (64, 33, 8, 2), (7, 630, 8, 2), (1024, 20, 8, 2)]):
+    for (n, nout, t, b) in ([(3, 4, 2, 2), (8, 9, 8, 2), (5, 3, 3, 3), (16, 7, 1, 1), (33, 17, 2, 4), (4, 5, 6, 1)] if not thorough else [(3, 4, 2, 2), (8, 9, 8, 2), (5, 3, 3, 3), (16, 7, 1, 1), (33, 17, 2, 4), (64, 33, 8, 2), (7, 630, 8, 2), (1024, 20, 8, 2)]):
         ik = [rng.randrange(2) for _ in range(n)]; ok = [rng.randrange(2) for _ in range(nout)]
         r = check('lweCreateKeySwitchKey n=%d nout=%d (t,b)=(%d,%d)' % (n, nout, t, b), 12, [n, nout, t, b] + ik + ok, sd + 31 + n, rng.randrange(20), 33554432, 0)
         check('lweCreateKeySwitchKey_old n=%d nout=%d (t,b)=(%d,%d)' % (n, nout, t, b), 15, [n, nout, t, b] + ik + ok, sd + 57 + n, rng.randrange(20), 33554432, 0)
